@@ -25,15 +25,16 @@ HARNESSES = [dict(name="pppoe", pkg="./internal/pppoe/", test="TestVerifC02", ti
 def route(case):
     return "ipoe" if case.startswith("B ") else "pppoe"
 def _v(fixed):
-    return "v" + "".join("0" if i in fixed else "1" for i in range(1, 9))
+    return "v" + "".join("0" if i in fixed else "1" for i in range(1, 10))
 
 
-# Defect flags 1..8 (see Model.v).  Fixed in /repo: 1 (constant fall-back, 24c9504), 3 (expiry take-over, 58e16d0),
-# 6 (pending ACK recorded, b04c868), 7 (nil-pool guard, d114f02).  Variants tried, in order: repaired (no defect);
-# the code today; the code today with one more defect fixed; then historical trees (one of the fixed flags still
-# present, or all) so that older / partially patched trees are still explained.
+# Defect flags 1..9 (see Model.v).  Fixed in /repo: 1 (constant fall-back, 24c9504), 3 (expiry take-over, 58e16d0),
+# 6 (pending ACK recorded, b04c868), 7 (nil-pool guard, d114f02).  Still in HEAD (= Model.Head): 2 unchecked release,
+# 4 unresolved answer from the lease table, 5 untracked out-of-pool statics, 8 restore keeps a conflicting address,
+# 9 VRF-blind containment walk / pool override.  Variants tried, in order: repaired; HEAD; HEAD with one more defect
+# fixed; then historical trees (one of the fixed flags still present, or all).
 FIXED = {1, 3, 6, 7}
-VARIANTS = (["repaired", _v(FIXED)] + [_v(FIXED | {i}) for i in (2, 4, 5, 8)] +
+VARIANTS = (["repaired", _v(FIXED)] + [_v(FIXED | {i}) for i in (2, 4, 5, 8, 9)] +
             [_v(FIXED - {i}) for i in (1, 3, 6, 7)] + ["defective"])
 MODEL_NEEDS_IMPL = True
 RULE = ("random configurations: 1-3 IPv4 pools (0-3 addresses, exclusions, two profiles, VRFs 0/1, globally disjoint "
@@ -465,6 +466,49 @@ def monitor(case, impl):
     return None
 
 
+def pool_vrfs(case):
+    """{'p0/k1': vrf, 'q0/k8': vrf} and [(family, lo, hi, vrf)] from the configuration tokens"""
+    t = segs(case)[0].split()
+    names, ranges = {}, []
+    i = 0
+    size = {"P4": 7, "P6": 6, "PD": 7, "G": 4, "S": 5, "V": 2, "B": 1}
+    while i < len(t):
+        if t[i] == "P4":
+            names["p%s/k%s" % (t[i + 2], t[i + 1])] = t[i + 3]
+            ranges.append(("4", int(t[i + 4]), int(t[i + 5]), t[i + 3]))
+        elif t[i] == "P6":
+            names["q%s/k%s" % (t[i + 2], t[i + 1])] = t[i + 3]
+            ranges.append(("6", int(t[i + 4]), int(t[i + 5]), t[i + 3]))
+        elif t[i] == "PD":
+            names["q%s/k%s" % (t[i + 2], t[i + 1])] = t[i + 3]
+        i += size.get(t[i], 1)
+    return names, ranges
+
+
+def vrf_blind(case, ops, sub, il, ml):
+    """the implementation holds a lease the repaired model does not, in a pool of another VRF than the
+    subscriber's (AAA static address / pool override resolved without looking at the VRF)"""
+    names, _ = pool_vrfs(case)
+    vrf = None
+    for x in ops:
+        if len(x) > 2 and x[1] == sub and x[0] in ("PA", "ID", "IQ", "IS", "IV", "BA"):
+            if x[0] == "BA" or vrf is None:
+                vrf = x[2]
+    extra = [key for key in il if key not in ml]
+    # (leases that differ inside pools of the subscriber's own VRF are free-slot choices made after the divergence)
+    if vrf is not None and any(names.get(key[2]) not in (None, vrf) for key in extra):
+        return True
+    # the other face: the AAA static address lies in a pool of another VRF and is refused there because that
+    # VRF's subscriber holds it, although it is free in the subscriber's own routing domain
+    _, ranges = pool_vrfs(case)
+    for x in reversed(ops):
+        if len(x) > 3 and x[1] == sub and x[0] in ("PA", "ID", "IQ", "BA") and x[3] != "-":
+            a = int(x[3])
+            hit = [pv for fam, lo, hi, pv in ranges if fam == "4" and lo <= a <= hi]
+            return bool(hit) and vrf is not None and all(pv != vrf for pv in hit) and il == ml
+    return False
+
+
 def first_diff(a, b):
     sa, sb = segs(a), segs(b)
     for i in range(min(len(sa), len(sb))):
@@ -488,11 +532,13 @@ def classify_b(case, impl, model):
     #  (a) an IPv4 address told to two subscribers that both still exist,
     #  (b) two existing sessions that RECORD the same IPv4 address / IPv6 address / delegated prefix
     #      (checked after every event, and over all sessions after a restart)
-    told, gone, recs = {}, set(), {}
+    told, gone, recs, vrf = {}, set(), {}, {}
     for k, (o, seg) in enumerate(zip(case_ops(case), segs(impl)[1:]), start=1):
         head = seg.split(" | ")[0].split()
         if not head:
             continue
+        if o[0] == "BA" and head[0] == "ba":
+            vrf[o[1]] = o[2]
         if head[0] == "bz" and len(head) > 1:
             recs = {}
             told = {}
@@ -513,13 +559,14 @@ def classify_b(case, impl, model):
                     if t.startswith(("offer:", "ack:")):
                         a = t.split(":")[1]
                         for other, b in told.items():
-                            if other != o[1] and a == b:
+                            if other != o[1] and a == b and vrf.get(other) == vrf.get(o[1]):
                                 return "P", "subscribers %s and %s are both told %s (event #%d);%s" % (other, o[1], a, k, where)
                         told[o[1]] = a
         seen = {}
         for sub, r in recs.items():
             for fam, val in zip(("IPv4 address", "IPv6 address", "delegated prefix"), r):
                 if val != "nil":
+                    fam = (fam, vrf.get(sub))
                     if (fam, val) in seen:
                         return "P", "sessions of subscribers %s and %s both hold %s %s after event #%d (%s);%s" % (
                             seen[(fam, val)], sub, fam, val, k, " ".join(o), where)
@@ -548,6 +595,8 @@ def signature_b(case, impl, models):
         if lost:
             return "release-frees-foreign-lease"
         return "other:release"
+    if o[0] in ("BD", "BQ", "BA", "BS", "BV", "BW") and vrf_blind(case, ops[:k], o[1], il, ml):
+        return "reserve-ignores-vrf"
     if o[0] in ("BD", "BQ", "BA", "BC"):
         mr, ir = mres.split()[1], ires.split()[1]
         if il == ml and mr == "." and "panic" in ir:
@@ -614,6 +663,8 @@ def signature(case, impl, models):
         lost = [s for key, s in ml.items() if key not in il]
         if lost and any(x[0] == "IA" for x in ops[:k - 1]):
             return "dhcp4-expiry-takeover-frees-current-owner"
+    if o[0] in ("PA", "ID", "IQ", "IS", "IV") and vrf_blind(case, ops[:k], o[1], il, ml):
+        return "reserve-ignores-vrf"
     if o[0] in ("ID", "IQ") and (" nil " in mres + " ") and " panic " in ires + " " and il == ml:
         return "dhcp4-unresolved-nil-pool-panic"
     if o[0] in ("ID", "IQ") and (" nil " in mres + " ") and (" offer:" in ires or " ack:" in ires) and il == ml:
